@@ -161,6 +161,11 @@ Next == Select \/ HdrIssue \/ ChipHdr \/ LoopIssue \/ ChipLoop \/ Done
 Exact     == result = "exact" => (contiguous /\ ~foreign /\ buf >= cfg.h + cfg.v /\ total = cfg.h + cfg.v)
 \* not found only when the chip said so
 NotFound  == result = "notfound" => cfg.selSw \in {"6A82", "6283"}
+\* the inductive invariant of ReadLoop.tla (discharged there by Apalache for every size and read size), in this
+\* module's variables: TLC checks that it holds in every reachable state of THIS model too, which ties the two together
+LoopInv   == ~SfiOffsets =>
+               /\ (pc \in {"loop", "chip"} => total = cfg.h + cfg.v /\ buf < total /\ contiguous /\ ~foreign)
+               /\ (pc = "chip" => req.off = buf /\ req.le >= 1 /\ req.le <= total - buf /\ req.off < 32768)
 \* bounded work
 Bounded   == chunks <= MaxChunks
 Terminates == <>(pc = "done")
